@@ -51,7 +51,7 @@ results=""
 for p in $props; do
   out=$(cd ${VERIF_DIR:-/verif} && VERIF_EVIDENCE_DIR=/tmp/mutant_evidence ./check $p quick 2>&1); rc=$?
   echo "---- $p quick rc=$rc"; echo "$out" | grep -E 'VIOLATION|INCONCLUSIVE|held' | cut -c1-400 | head -8
-  first=$(echo "$out" | grep -m1 'VIOLATION-CANDIDATE' | cut -c1-300 | sed 's/"/\\"/g')
+  first=$(echo "$out" | grep -m1 'VIOLATION-CANDIDATE' | cut -c1-300 | python3 -c 'import json,sys; print(json.dumps(sys.stdin.read().rstrip("\n"))[1:-1])')
   results="$results{\"check\":\"$p quick\",\"exit\":$rc,\"first_report\":\"$first\"},"
 done
 git -C /repo checkout -- . ; git -C /repo clean -fdq
